@@ -573,10 +573,10 @@ Section Bridge.
         apply filter_In. split; auto. simpl. rewrite Nat.eqb_refl, Hru. reflexivity.
     Qed.
 
-    Lemma br_final b k sg l e : P g b k sg -> stat_at g b k = Some (LRef l e) -> sg e = false ->
+    Lemma br_final b k sg s : P g b k sg -> stat_at g b k = Some s -> sg (entry_of s) = false ->
       exists c', cls_at ne g r b k = Some c' /\ c' <> Bound.
     Proof.
-      intros HP Hs Hse. destruct (br_inv b k sg HP) as [Hb HQ].
+      intros HP Hs Hse. set (e := entry_of s) in *. destruct (br_inv b k sg HP) as [Hb HQ].
       assert (Hb0 : b <> 0) by (intros ->; rewrite br_block0 in Hs; discriminate).
       assert (Hb1 : 1 <= b < nb g) by lia.
       pose proof (P_reach g b k sg HP) as Hr.
@@ -585,6 +585,7 @@ Section Bridge.
       { destruct br_ok as (_ & _ & _ & _ & Hsts). unfold stat_at, block_stats in Hs.
         apply nth_error_In, in_rev, in_map_iff in Hs. destruct Hs as ([b' s'] & E' & Hin). simpl in E'. subst s'.
         apply filter_In in Hin. destruct Hin as [Hin _]. destruct (Hsts _ _ Hin) as [_ Hlt]. exact Hlt. }
+      assert (Hse' : stat_entry (to_stat s) = e) by (destruct s; reflexivity).
       unfold cls_at. rewrite Hr. eexists; split; [reflexivity|].
       rewrite Hcls.
       assert (Hi : nth_error ins b = Some (getN ins b)).
@@ -592,14 +593,14 @@ Section Bridge.
       assert (Hn2 : nth_error nss b = Some (NS b)).
       { unfold NS. apply nth_error_nth'. unfold nss. simpl. rewrite br_lnss_len. lia. }
       rewrite (nth_map_combine _ ins nss b _ _ [] Hi Hn2). cbn [fst snd].
-      assert (Hsplit : NS b = firstn k (NS b) ++ (SRef e, num) :: skipn (S k) (NS b)).
+      assert (Hsplit : NS b = firstn k (NS b) ++ (to_stat s, num) :: skipn (S k) (NS b)).
       { rewrite <- (firstn_skipn k (NS b)) at 1. f_equal.
         clear - Hn. revert k Hn. generalize (NS b) as ll. induction ll as [|a ll IH]; intros [|k] Hn; simpl in *; try discriminate.
         - now inversion Hn. - now apply IH. }
       assert (Hlen : length (firstn k (NS b)) = k).
       { apply firstn_length_le. apply Nat.lt_le_incl. apply nth_error_Some. congruence. }
-      pose proof (walk_spec cc mask (NS b) (getN ins b) (firstn k (NS b)) (SRef e, num) _ Hsplit) as W.
-      rewrite Hlen in W. rewrite W. cbn [fst stat_entry].
+      pose proof (walk_spec cc mask (NS b) (getN ins b) (firstn k (NS b)) (to_stat s, num) _ Hsplit) as W.
+      rewrite Hlen in W. rewrite W. cbn [fst]. cbv zeta. rewrite Hse'.
       specialize (HQ e He Hse). unfold INb in HQ. destruct (Nat.eqb_spec b 0); [lia|].
       rewrite has_uninit_spec, HQ. unfold classify.
       assert (Es : nth e (c_static cc) false = false).
@@ -610,7 +611,7 @@ Section Bridge.
     Qed.
   End WithSolution.
 
-  Theorem bridge b k sg l e : P g b k sg -> stat_at g b k = Some (LRef l e) -> sg e = false ->
+  Theorem bridge b k sg s : P g b k sg -> stat_at g b k = Some s -> sg (entry_of s) = false ->
     exists c', cls_at ne g r b k = Some c' /\ c' <> Bound.
   Proof. destruct br_an as (outs & ins & Hrd & Hcls). eapply br_final; eauto. Qed.
 End Bridge.
@@ -622,31 +623,33 @@ Theorem unbound_use_is_checked ne args body tr o s2 l e r :
   exec (IS body) (bind args s_init) tr o s2 ->
   In (l, e, false) tr ->
   analyse (cfg_of ne (build true args body)) = Some r ->
-  exists b k c', stat_at (build true args body) b k = Some (LRef l e) /\
-                 cls_at ne (build true args body) r b k = Some c' /\ c' <> Bound.
+  exists b k s c', stat_at (build true args body) b k = Some s /\ label_of s = l /\ entry_of s = e /\
+                   cls_at ne (build true args body) r b k = Some c' /\ c' <> Bound.
 Proof.
   intros Hw Hok Hex Hin Han.
   pose proof (cfg_covers_paths args body tr o s2 Hw Hex) as HJ.
   rewrite Forall_forall in HJ. specialize (HJ _ Hin). simpl in HJ.
-  destruct (HJ eq_refl) as (b & k & sg & HP & Hs & Hse).
-  destruct (bridge ne _ r Hok Han b k sg l e HP Hs Hse) as (c' & Hc & Hn).
-  exists b, k, c'. auto.
+  destruct (HJ eq_refl) as (b & k & sg & s & HP & Hs & Hl & He & Hse).
+  rewrite <- He in Hse.
+  destruct (bridge ne _ r Hok Han b k sg s HP Hs Hse) as (c' & Hc & Hn).
+  exists b, k, s, c'. auto.
 Qed.
 
-(* contrapositive: a NameNode all of whose reference statements carry no cf_maybe_null hint is never
-   evaluated while its entry is unbound *)
+(* contrapositive: a NameNode all of whose statements carry no cf_maybe_null hint is never evaluated
+   (read, assigned to, deleted) while its entry is unbound *)
 Corollary no_hint_no_unbound_use ne args body tr o s2 l e r :
   wf false body = true ->
   graph_ok ne (build true args body) = true ->
   exec (IS body) (bind args s_init) tr o s2 ->
   analyse (cfg_of ne (build true args body)) = Some r ->
-  (forall b k, stat_at (build true args body) b k = Some (LRef l e) ->
-               cls_at ne (build true args body) r b k = Some Bound) ->
+  (forall b k s, stat_at (build true args body) b k = Some s -> label_of s = l ->
+                 cls_at ne (build true args body) r b k = Some Bound) ->
   ~ In (l, e, false) tr.
 Proof.
   intros Hw Hok Hex Han Hall Hin.
-  destruct (unbound_use_is_checked ne args body tr o s2 l e r Hw Hok Hex Hin Han) as (b & k & c' & Hs & Hc & Hn).
-  rewrite (Hall b k Hs) in Hc. inversion Hc; subst. congruence.
+  destruct (unbound_use_is_checked ne args body tr o s2 l e r Hw Hok Hex Hin Han)
+    as (b & k & s & c' & Hs & Hl & He & Hc & Hn).
+  rewrite (Hall b k s Hs Hl) in Hc. inversion Hc; subst. congruence.
 Qed.
 
 (* ------------------------------------------------------------------ the code as it is: refuted *)
